@@ -36,6 +36,7 @@ func main() {
 		list    = flag.Bool("list", false, "list registered properties")
 		symbols = flag.String("symbols", "", "symbol table used to map renamed declarations back (default: ../symbols.json beside the binary; 'off' disables)")
 		genSyms = flag.String("gen-symbols", "", "write the symbol table of the tree (union over the build configurations) to this file and exit")
+		dumpFn  = flag.String("dumpfn", "", "debug: print the SSA of the named function as the rules see it (with -metamorph: on the transformed tree)")
 		mm      = flag.String("metamorph", "", "run on an overlay in which all keto sources are rewritten by a behaviour-preserving transformation (commute|ifelse|rename|parens); prints the obligations that are not discharged")
 	)
 	flag.Parse()
@@ -87,6 +88,30 @@ func main() {
 		lc.Tags = strings.Split(*tags, ",")
 	}
 
+	if *dumpFn != "" {
+		if *mm != "" {
+			ov, _, err := core.Metamorph(*repo, lc.Tags, *mm)
+			if err != nil {
+				fmt.Fprintln(os.Stderr, err)
+				os.Exit(2)
+			}
+			lc.Overlay = ov
+		}
+		p, err := core.LoadNormalised(lc, symbolsPath)
+		if err != nil {
+			fmt.Fprintln(os.Stderr, err)
+			os.Exit(2)
+		}
+		fn := p.Func(*dumpFn)
+		if fn == nil {
+			fmt.Fprintln(os.Stderr, "no such function")
+			os.Exit(2)
+		}
+		for _, f := range core.Closures(fn) {
+			f.WriteTo(os.Stdout)
+		}
+		return
+	}
 	if *control == "list" {
 		for _, c := range pr.Controls {
 			kind := "negative"
@@ -201,7 +226,7 @@ func analyse(pr *rules.Property, lc core.LoadConfig, tier string, useCHA bool) (
 // runControl applies one overlay and prints {"applied":bool,"fired":[keys]}.
 func runControl(pr *rules.Property, name string, lc core.LoadConfig, repo string, alsoRename string) {
 	ctls := pr.Controls
-	if strings.HasPrefix(name, "seed-") {
+	if strings.HasPrefix(name, "seed-") || strings.HasPrefix(name, "neutral-") {
 		// a seeded change can be tried against any property's rules
 		for _, id := range rules.IDs() {
 			if q := rules.Get(id); q != nil && q != pr {
